@@ -10,6 +10,7 @@ def ob(h):
 
 class Snssai(Stream):
     name, sub = "snssai", "snssai"
+    retained_field = "out"
     requires = ["Hex", "Convert", "Convert3gpp"]
     model_check = "(fun c : Z * list N * list N * bool => snssai_check (fst c))"
     # spec: well-formed inputs (sst 0..255, sd absent or 6 hex digits) must decode to the same sst / sd octets
@@ -71,6 +72,7 @@ class AmfId(Stream):
 
 class IpAddr(Stream):
     name, sub = "ipaddr", "ipaddr"
+    retained_field = "bytes"
     requires = ["Convert", "Convert3gpp"]
     model_check = "ipaddr_check"
     # spec: TS 38.414 decoder returns the addresses that were given
@@ -138,6 +140,7 @@ def units_coq(us):
 
 class Pco(Stream):
     name, sub = "pco", "pco"
+    retained_field = "bytes"
     requires = ["Convert", "Convert3gpp"]
     case_type = "list pcu * list N * option (list pcu) * bool"
     model_check = "(fun c : list pcu * list N * option (list pcu) * bool => pco_check (fst c))"
@@ -195,6 +198,7 @@ class PcoDec(Stream):
 
 class Dnn(Stream):
     name, sub = "dnn", "dnn"
+    retained_field = "bytes"
     requires = ["Convert", "Convert3gpp"]
     model_check = "dnn_check"
     spec_check = "(fun c : list N * list N * list N => let '(d, ob, back) := c in match dnn_lv_decode ob with Some d' => eqb_bytes d d' && eqb_bytes d back | None => false end)"
